@@ -251,7 +251,7 @@ def run(ctx):
                     if k not in errs:
                         worst, bad = np.inf, ("missing", k)
                         continue
-                    d = abs(float(errs[k]) - ref_err[k]) / (ref_err[k] + 1e-9)
+                    d = abs(float(errs[k]) - ref_err[k]) / (ref_err[k] + 1e-6)  # absolute floor: fractions that vanish identically carry only FD noise
                     if d > worst:
                         worst, bad = d, (str(k), float(errs[k]), ref_err[k])
                 ctx.dev("fit fraction error rel dev", worst, 1e-4)
